@@ -298,3 +298,51 @@ def _(repo):
             env9 = {"res": 9}
         out.append(f"Definition gen_{fn[9:]}_reduce : tx := {tx(expr, env9).replace('(XIn 9)', mism)}.")
     return "(* inputs: 0 = u at the border points restricted to the selected components, 1 = f at the border points *)\n" + "\n".join(out)
+
+
+# =============================================================== G_fwd (C11)
+OPS = "jinns/loss/_operators.py"
+UTILS = "jinns/utils/_utils.py"
+header("G_fwd", """From Coq Require Import Bool.
+""")
+
+
+def _scan_fwd(f, what):
+    """forward-mode operator: a scan over the d space axes, each step a jvp along the one-hot tangent of axis i
+    (repeated over the batch rows); the per-axis results are summed"""
+    scans = [n for n in ast.walk(f) if isinstance(n, ast.Call) and ast.unparse(n.func) == "jax.lax.scan"]
+    sc = one(scans, "scan of " + what)
+    over_axes = len(sc.args) == 3 and ast.unparse(sc.args[2]) in ("jnp.arange(x.shape[1])", "jnp.arange(x.shape[-1])")
+    tv = [ast.unparse(v) for v in branch_assigns(f, "tangent_vec")]
+    one_hot = tv == ["jnp.repeat(jax.nn.one_hot(i, x.shape[-1])[None], x.shape[0], axis=0)"]
+    r = ast.unparse(returns(f)[-1])
+    return over_axes, one_hot, r
+
+
+@anchor("G_fwd", "div_fwd")
+def _(repo):
+    f = find_func(parse(repo, OPS), "_div_fwd")
+    over_axes, one_hot, r = _scan_fwd(f, "_div_fwd")
+    jv = [ast.unparse(n) for n in ast.walk(f) if isinstance(n, ast.Call) and ast.unparse(n.func) == "jax.jvp"]
+    comp = sorted(jv) == sorted(["jax.jvp(lambda x: u(x, params)[..., i], (x,), (tangent_vec,))", "jax.jvp(lambda x: u(t, x, params)[..., i], (x,), (tangent_vec,))"])
+    ok = over_axes and one_hot and comp and r == "jnp.sum(accu, axis=0)" and "__, du_dxi = jax.jvp" in ast.unparse(f)
+    return f"Definition gen_div_fwd_is_sum_of_onehot_jvps : bool := {'true' if ok else 'false'}."
+
+
+@anchor("G_fwd", "laplacian_fwd")
+def _(repo):
+    f = find_func(parse(repo, OPS), "_laplacian_fwd")
+    over_axes, one_hot, r = _scan_fwd(f, "_laplacian_fwd")
+    src = ast.unparse(f)
+    inner = ("jax.jvp(lambda x: u(x, params)[..., 0], (x,), (tangent_vec,))[1]" in src and "jax.jvp(lambda x: u(t, x, params)[..., 0], (x,), (tangent_vec,))[1]" in src)
+    outer = src.count("__, d2u_dxi2 = jax.jvp(du_dxi_fun, (x,), (tangent_vec,))") == 2
+    ok = over_axes and one_hot and inner and outer and r == "jnp.sum(trace_hessian, axis=0)"
+    return f"Definition gen_laplacian_fwd_is_sum_of_second_onehot_jvps : bool := {'true' if ok else 'false'}."
+
+
+@anchor("G_fwd", "grid")
+def _(repo):
+    f = find_func(parse(repo, UTILS), "_get_grid")
+    src = ast.unparse(f)
+    ok = "jnp.stack(jnp.meshgrid(*(in_array[..., d] for d in range(in_array.shape[-1])), indexing='ij'), axis=-1)" in src
+    return f"Definition gen_grid_is_ij_meshgrid_of_columns : bool := {'true' if ok else 'false'}."
